@@ -28,7 +28,9 @@ CONFIG = {
                    'checkers make) has its output checked for the restricted '
                    'alphabet and for semantic equivalence with its input on a '
                    'panel of small structures / all lasso words up to a '
-                   'length bound; LNot likewise.'),
+                   'length bound; LNot likewise.'
+                   ' Also: every chain of three temporal/negation operators,'
+                   ' negation chains for LNot.'),
     'level_note': ('Trusted base: vmon/equiv.py over refsem/pathsem; '
                    'equivalence is decided on a finite panel (structures '
                    'with <=3 states over {p,q}; lasso words with |u|+|v|<=4), '
